@@ -1,9 +1,96 @@
 import Driver.Util
+import Mtv.Ige.Wrap
+import Mtv.Crypto.Aes
+import Mtv.Crypto.Sha1
+/-
+  Line-protocol driver of property C05. The register model and the wrappers of `Mtv.Ige` are run
+  with the executable AES-256 and SHA-1 of `Mtv.Crypto` plugged in for the parameters `E D H`.
+-/
 namespace Driver.C05
-open Mtv Driver
+open Mtv Mtv.Ige Driver
 
-/-- operations of property C05; not built yet -/
+def aesE (key : Bytes) : Bytes → Bytes :=
+  let k := Mtv.Crypto.aes256Expand key
+  fun b => Mtv.Crypto.aes256EncryptBlock k b
+
+def aesD (key : Bytes) : Bytes → Bytes :=
+  let k := Mtv.Crypto.aes256Expand key
+  fun b => Mtv.Crypto.aes256DecryptBlock k b
+
+def H : Bytes → Bytes := Mtv.Crypto.sha1
+
+/-- content of the caller's output buffer before the call (the harness fills it the same way) -/
+def outFill (n : Nat) : Bytes := List.replicate n 0xA5
+
+def showErr : Option IgeErr → String
+  | none => "-"
+  | some e => errName e
+
+def showRes (r : IgeResult) : String :=
+  s!"err={showErr r.err} out={showBytes r.out} in={showBytes r.data}"
+
+def showOutcome : Outcome Bytes → String
+  | .ok b => "ok:" ++ showBytes b
+  | .err e => "err:" ++ e
+  | .panic s => "panic:internal/aes_ige." ++ s
+
+def showKV : Outcome (Bytes × Bytes) → String
+  | .ok (k, v) => s!"key={showBytes k} iv={showBytes v}"
+  | .err e => "err:" ++ e
+  | .panic s => "panic:internal/aes_ige." ++ s
+
 def handle : List String → String
+  | ["c05.enc", key, iv, data] =>
+    match parseBytes? key, parseBytes? iv, parseBytes? data with
+    | some k, some v, some d =>
+      if k.length ≠ 32 ∨ v.length ≠ 32 then "bad-op" else
+      let ek := Mtv.Crypto.aes256Expand k
+      showRes (doEncrypt (fun b => Mtv.Crypto.aes256EncryptBlock ek b) v d (outFill d.length))
+    | _, _, _ => "bad-op"
+  | ["c05.dec", key, iv, data] =>
+    match parseBytes? key, parseBytes? iv, parseBytes? data with
+    | some k, some v, some d =>
+      if k.length ≠ 32 ∨ v.length ≠ 32 then "bad-op" else
+      let dk := Mtv.Crypto.aes256Expand k
+      showRes (doDecrypt (fun b => Mtv.Crypto.aes256DecryptBlock dk b) v d (outFill d.length))
+    | _, _, _ => "bad-op"
+  | ["c05.msgenc", authKey, msg] =>
+    match parseBytes? authKey, parseBytes? msg with
+    | some ak, some m => showOutcome (encryptMsg H aesE m ak)
+    | _, _ => "bad-op"
+  | ["c05.msgdec", authKey, msgKey, ct] =>
+    match parseBytes? authKey, parseBytes? msgKey, parseBytes? ct with
+    | some ak, some mk, some c => showOutcome (decryptMsg H aesD c ak mk)
+    | _, _, _ => "bad-op"
+  | ["c05.tkeys", n, s] =>
+    match parseBytes? n, parseBytes? s with
+    | some nb, some sb => showKV (.ok (generateTempKeys H (fromBE nb) (fromBE sb)))
+    | _, _ => "bad-op"
+  | ["c05.tenc", n, s, _seed, rnd, msg] =>
+    match parseBytes? n, parseBytes? s, parseBytes? rnd, parseBytes? msg with
+    | some nb, some sb, some r, some m =>
+      if r.length < 16 then "bad-op" else
+      match encryptTemp H aesE m (fromBE nb) (fromBE sb) r with
+      | .ok ct => s!"ct={toHexD ct} rt={showOutcome (decryptTemp H aesD ct (fromBE nb) (fromBE sb))}"
+      | o => showOutcome o
+    | _, _, _, _ => "bad-op"
+  | ["c05.tnopad", n, s, data] =>
+    match parseBytes? n, parseBytes? s, parseBytes? data with
+    | some nb, some sb, some d => showOutcome (encryptTempNoPad H aesE d (fromBE nb) (fromBE sb))
+    | _, _, _ => "bad-op"
+  | ["c05.tdec", n, s, pad, answer] =>
+    -- a conformant peer's message (32-byte new_nonce, 16-byte server_nonce), built from the
+    -- specification only, handed to the model of DecryptMessageWithTempKeys
+    match parseBytes? n, parseBytes? s, parseBytes? pad, parseBytes? answer with
+    | some nb, some sb, some p, some a =>
+      if nb.length ≠ 32 ∨ sb.length ≠ 16 ∨ (20 + a.length + p.length) % 16 ≠ 0 then "bad-op" else
+      let ct := conformantMsg H aesE nb sb a p
+      s!"ct={showBytes ct} out={showOutcome (decryptTemp H aesD ct (fromBE nb) (fromBE sb))}"
+    | _, _, _, _ => "bad-op"
+  | ["c05.tdecraw", n, s, ct] =>
+    match parseBytes? n, parseBytes? s, parseBytes? ct with
+    | some nb, some sb, some c => showOutcome (decryptTemp H aesD c (fromBE nb) (fromBE sb))
+    | _, _, _ => "bad-op"
   | _ => "bad-op"
 
 end Driver.C05
